@@ -30,6 +30,7 @@ import (
 	_ "verifsim/shapes/pair"
 	_ "verifsim/shapes/person"
 	_ "verifsim/shapes/rep3"
+	_ "verifsim/shapes/wide"
 )
 
 type task struct {
@@ -108,6 +109,64 @@ func main() {
 			}
 		}
 	}
+	// Writers that are handed the SAME record values (slices with spare
+	// capacity, as windows into one array have): records are inputs; a writer
+	// that adopts or appends to a caller's slice writes into memory another
+	// writer is reading.
+	{
+		so := o
+		so.MaxOps = 12
+		so.Profile.MaxList = 3
+		spec := core.GenHistory(r, so)
+		for i := range spec.Ops {
+			if spec.Ops[i].K == "add" {
+				spec.Ops[i].SetVal(core.CopyRecSpare(spec.Ops[i].Val(core.GetShape(spec.Shape))))
+			}
+		}
+		var before []string
+		for i := range spec.Ops {
+			if spec.Ops[i].K == "add" {
+				before = append(before, string(core.RecJSON(spec.Ops[i].Val(core.GetShape(spec.Shape)))))
+			}
+		}
+		outs := make([][]byte, *g)
+		var wg sync.WaitGroup
+		start := make(chan struct{})
+		for i := 0; i < *g; i++ {
+			wg.Add(1)
+			go func(i int) {
+				defer wg.Done()
+				<-start
+				sink := &core.Sink{}
+				core.ExecWriterShared(spec, sink)
+				outs[i] = sink.Data
+			}(i)
+		}
+		close(start)
+		wg.Wait()
+		total++
+		k := 0
+		for i := range spec.Ops {
+			if spec.Ops[i].K == "add" {
+				if string(core.RecJSON(spec.Ops[i].Val(core.GetShape(spec.Shape)))) != before[k] {
+					bad++
+					fmt.Printf("INTERFERENCE %s: a record the caller shared between writers was modified by a writer\n", spec.HistoryString())
+					break
+				}
+				k++
+			}
+		}
+		solo := &core.Sink{}
+		core.ExecWriter(spec, solo)
+		for i := range outs {
+			if !bytes.Equal(outs[i], solo.Data) {
+				bad++
+				fmt.Printf("INTERFERENCE %s: a writer fed shared records produced bytes that differ from the solo run\n", spec.HistoryString())
+				break
+			}
+		}
+	}
+
 	// Instances that FAIL at the same time: every goroutine runs writers whose
 	// destination fails at a seeded call, and readers whose source fails, each
 	// with a different error value. Error paths have state too (error objects,
